@@ -1,5 +1,6 @@
 import Aiorpcx.Common.Hex
 import Aiorpcx.C01.Model
+import Aiorpcx.C01.Sess
 import Aiorpcx.Facts.C01
 /-! Line-protocol driver for the C01 model: one history per line.
 
@@ -14,7 +15,13 @@ import Aiorpcx.Facts.C01
          resp = `<id>/<wf>/<res>`; id = `i<int>` `h<int>` (float n/2) `bT` `bF` `s<cp>.<cp>..` `n`
          `u<tag>` `-` (absent); wf = `0|1`; res = `v<nat>` | `e<nat>`.
     out: one token per op (`s<ids>/<ticket>` `d<tickets>` `!P` `!T` `c<tickets>`), then
-         `#<pending> <fut>,<fut>..` with fut = `p` `r<v>` `e<v>` `P` `c` `b[<res>;..]`. -/
+         `#<pending> <fut>,<fut>..` with fut = `p` `r<v>` `e<v>` `P` `c` `b[<res>;..]`.
+
+    Session histories (`Sess.lean`): variant `W`; the same op tokens mean: `S`/`B` a caller makes
+    the call, `X<t>` a caller awaiting its response gives up, `C` the connection is lost,
+    `R`/`L`/`O` a message from the peer; in addition `P` send buffer full, `U` drained,
+    `D<q>` the q-th parked caller gives up.  out: `#<pending> <futs> w<ids>;<ids>;..` - the ids of
+    the messages on the wire, in wire order. -/
 open Aiorpcx Aiorpcx.C01
 
 def parseProto (s : String) : Option Proto :=
@@ -144,4 +151,41 @@ def handle (line : String) : String :=
     | _, _ => "bad-op"
   | _ => "bad-op"
 
-def main : IO Unit := Hex.lineLoop handle
+def parseSOp (s : String) : Option (SOp Nat) :=
+  let rest := (s.drop 1).toString
+  match s.front with
+  | 'P' => if rest == "" then some .pause else none
+  | 'U' => if rest == "" then some .resume else none
+  | 'D' => rest.toNat?.map .dropParked
+  | _ =>
+    match parseOp s with
+    | some (.sendRequest ok) => some (.call none ok)
+    | some (.sendBatch ms ok) => some (.call (some ms) ok)
+    | some (.extCancel t) => some (.giveUp t)
+    | some .cancelAll => some .lost
+    | some op => some (.recv op)
+    | none => none
+
+def handleSess (line : String) : String :=
+  match (line.splitOn " ").filter (· ≠ "") with
+  | hd :: ops =>
+    match hd.splitOn ":" with
+    | [_, p, st] =>
+      let proto? : Option (Option Proto) :=
+        if p == "auto" then some none else (parseProto p).map some
+      match proto?, st.toNat?, ops.mapM parseSOp with
+      | some proto, some start, some ops =>
+          let vr := repaired Facts.C01.lookupGuarded Facts.C01.sortGuarded
+          let s := srun vr Facts.C01.idStep (Sess.init proto start) ops
+          String.intercalate " "
+            ["#" ++ toString s.conn.pendingCount,
+             if s.conn.futs.isEmpty then "." else String.intercalate "," (s.conn.futs.map showFut),
+             "w" ++ String.intercalate ";" (s.wire.map showNats)]
+      | _, _, _ => "bad-op"
+    | _ => "bad-op"
+  | _ => "bad-op"
+
+def dispatch (line : String) : String :=
+  if line.startsWith "W:" then handleSess line else handle line
+
+def main : IO Unit := Hex.lineLoop dispatch
